@@ -96,6 +96,10 @@ func main() {
 		"distinct = distinct serialised case without its id"
 	defer run.Finish()
 
+	if *dumpDir != "" {
+		dumpCases(run, *dumpDir, 300)
+		return
+	}
 	if *explore {
 		exploreMain(run)
 		return
@@ -209,5 +213,6 @@ func diffSig(r resultT) string {
 	return s
 }
 
+var dumpDir = flag.String("dump", "", "development: write the generated scripts with a stub host package for an external type check")
 var showN = flag.Int("show", 1, "development: cases printed per group")
 var featFlag = flag.String("feat", "", "development: switch one gated feature on for every generated case")
